@@ -876,7 +876,7 @@ struct Gen {
     }
     if (lk == 8) {
       c.op = OP_LIFE_MODULE_PAIR;
-      c.p[0] = 1ull << r.range(1, cfg.max_log2n + 2);
+      c.p[0] = 1ull << (r.chance(5, 100) ? r.range(12, 14) : r.range(1, cfg.max_log2n + 2));
       c.p[1] = cfg.ntt120 && r.chance(1, 4);
       c.p[2] = r.below(2);
       c.p[3] = r.below(1000);
@@ -900,7 +900,7 @@ struct Gen {
     switch (lk) {
       case 0:
         c.op = OP_LIFE_MODULE;
-        c.p[0] = 1ull << r.range(1, cfg.max_log2n + 2);
+        c.p[0] = 1ull << (r.chance(5, 100) ? r.range(12, 14) : r.range(1, cfg.max_log2n + 2));  // sometimes past the large-N thresholds
         c.p[1] = cfg.ntt120 && r.chance(1, 3);
         break;
       case 1:
@@ -920,7 +920,7 @@ struct Gen {
       default: {
         c.op = OP_LIFE_TABLE;
         int kind = (int)r.below(TB_NKINDS);
-        uint64_t m = 1ull << r.range(kind >= TB_R4_MUL && kind <= TB_R4_TO_CPLX ? 2 : 0, cfg.max_log2n + 3);
+        uint64_t m = 1ull << (r.chance(5, 100) ? r.range(11, 14) : r.range(kind >= TB_R4_MUL && kind <= TB_R4_TO_CPLX ? 2 : 0, cfg.max_log2n + 3));
         c.p[0] = (uint64_t)kind;
         c.p[1] = m;
         c.dp = pick_divisor(m);
